@@ -123,7 +123,7 @@ variable {inc : Int} {B : Map Req} {Q : List Req} {hr : Bool} {reqs : List (Req 
 /-- A request that is not recorded in `incomingByID` is accepted (a notification, or a call
 whose duplicate ID was cleared). -/
 theorem acceptPlain (h : ReqInv inc B Q hr reqs next ans) {r : Req} {p : Phase}
-    (hr1 : r.ref = next) (hnc : r.isCall = false) (hpq : p ≠ Phase.queued) :
+    (hr1 : r.ref = next) (hnc : r.isCall = false) (hpq : p ≠ Phase.queued) (hpa : p ≠ Phase.async) :
     ReqInv (inc + 1) B Q hr ((r, p) :: reqs) (next + 1) ans := by
   have hfresh : ∀ p', (r, p') ∉ reqs := fun p' hm => by
     have := h.qFresh _ hm; simp only [hr1] at this; exact Nat.lt_irrefl _ this
@@ -174,11 +174,17 @@ theorem acceptPlain (h : ReqInv inc B Q hr reqs next ans) {r : Req} {p : Phase}
     rcases hm with ⟨rfl, _⟩ | hm
     · rw [hr1] at a; exact absurd a (Nat.lt_irrefl _)
     · exact b p' hm
+  case asyncC =>
+    intro q hq
+    simp only [List.mem_cons, Prod.mk.injEq] at hq
+    rcases hq with ⟨_, hp⟩ | hq
+    · exact absurd hp.symm hpa
+    · exact h.asyncC q hq
 
 /-- A call with an unused ID is accepted and recorded in `incomingByID`. -/
 theorem acceptCall (h : ReqInv inc B Q hr reqs next ans) {r : Req} {p : Phase}
     (hr1 : r.ref = next) (hcall : r.isCall = true) (hnew : Map.get B r.id = none)
-    (hpq : p ≠ Phase.queued) (hp16 : p.pre16 = true) :
+    (hpq : p ≠ Phase.queued) (hpa : p ≠ Phase.async) (hp16 : p.pre16 = true) :
     ReqInv (inc + 1) (Map.put B r.id r) Q hr ((r, p) :: reqs) (next + 1) ans := by
   have hk : r.id ∉ Map.keys B := Map.get_eq_none.mp hnew
   constructor
@@ -234,11 +240,18 @@ theorem acceptCall (h : ReqInv inc B Q hr reqs next ans) {r : Req} {p : Phase}
     rcases hm with ⟨rfl, _⟩ | hm
     · rw [hr1] at a; exact absurd a (Nat.lt_irrefl _)
     · exact b p' hm
+  case asyncC =>
+    intro q hq
+    simp only [List.mem_cons, Prod.mk.injEq] at hq
+    rcases hq with ⟨_, hp⟩ | hq
+    · exact absurd hp.symm hpa
+    · exact h.asyncC q hq
 
 /-- A phase change that touches neither the queue, nor `incomingByID`, nor the answered log. -/
 theorem setPlain (h : ReqInv inc B Q hr reqs next ans) {r : Req} {p0 p : Phase}
     (hm : (r, p0) ∈ reqs) (h0q : p0 ≠ Phase.queued) (hpq : p ≠ Phase.queued)
-    (h0w : p0 ≠ Phase.writing) (h16 : r.isCall = true → p.pre16 = p0.pre16) :
+    (h0w : p0 ≠ Phase.writing) (h16 : r.isCall = true → p.pre16 = p0.pre16)
+    (has : p = Phase.async → r.isCall = true) :
     ReqInv inc B Q hr (setPh reqs r p) next ans := by
   constructor
   case inc => rw [setPh_length]; exact h.inc
@@ -288,6 +301,11 @@ theorem setPlain (h : ReqInv inc B Q hr reqs next ans) {r : Req} {p0 p : Phase}
     rcases mem_setPh.mp hm' with ⟨_, hm''⟩ | ⟨rfl, _, _, _⟩
     · exact b p' hm''
     · exact absurd (b p0 hm) h0w
+  case asyncC =>
+    intro q hq
+    rcases mem_setPh.mp hq with ⟨_, hq'⟩ | ⟨rfl, hp, _⟩
+    · exact h.asyncC q hq'
+    · exact has hp.symm
 
 /-- acceptRequest#1 succeeded: the request is appended to the handler queue. -/
 theorem enqueue (h : ReqInv inc B Q hr reqs next ans) {r : Req}
@@ -347,6 +365,11 @@ theorem enqueue (h : ReqInv inc B Q hr reqs next ans) {r : Req}
     rcases mem_setPh.mp hm' with ⟨_, hm''⟩ | ⟨rfl, _, _, _⟩
     · exact b p' hm''
     · have := b _ hm; cases this
+  case asyncC =>
+    intro q hq
+    rcases mem_setPh.mp hq with ⟨_, hq'⟩ | ⟨_, hp, _⟩
+    · exact h.asyncC q hq'
+    · cases hp
 
 /-- handleAsync#0 with a non-empty queue: its head is handed to the handler. -/
 theorem dequeue (h : ReqInv inc B (r :: Q) hr reqs next ans) :
@@ -402,6 +425,11 @@ theorem dequeue (h : ReqInv inc B (r :: Q) hr reqs next ans) :
     rcases mem_setPh.mp hm' with ⟨_, hm''⟩ | ⟨rfl, _, _, _⟩
     · exact b p' hm''
     · have := b _ hm; cases this
+  case asyncC =>
+    intro q hq
+    rcases mem_setPh.mp hq with ⟨_, hq'⟩ | ⟨_, hp, _⟩
+    · exact h.asyncC q hq'
+    · cases hp
 
 /-- handleAsync#0 with an empty queue: the handler goroutine exits. -/
 theorem handlerExit (h : ReqInv inc B [] hr reqs next ans) : ReqInv inc B [] false reqs next ans where
@@ -415,6 +443,7 @@ theorem handlerExit (h : ReqInv inc B [] hr reqs next ans) : ReqInv inc B [] fal
   queueH := fun hne => absurd rfl hne
   ansN := h.ansN
   ansW := h.ansW
+  asyncC := h.asyncC
 
 /-- processResult#0: the call leaves `incomingByID`; its response is written next. -/
 theorem prDelete (h : ReqInv inc B Q hr reqs next ans) {r : Req}
@@ -481,6 +510,11 @@ theorem prDelete (h : ReqInv inc B Q hr reqs next ans) {r : Req}
       rcases mem_setPh.mp hm' with ⟨_, hm''⟩ | ⟨_, hp, _⟩
       · exact b p' hm''
       · exact hp
+  case asyncC =>
+    intro q hq
+    rcases mem_setPh.mp hq with ⟨_, hq'⟩ | ⟨_, hp, _⟩
+    · exact h.asyncC q hq'
+    · cases hp
 
 /-- processResult#1: the request is finished. -/
 theorem prFinish (h : ReqInv inc B Q hr reqs next ans) {r : Req} {p0 : Phase}
@@ -528,6 +562,7 @@ theorem prFinish (h : ReqInv inc B Q hr reqs next ans) {r : Req} {p0 : Phase}
     intro r' hr'
     obtain ⟨a, b⟩ := h.ansW r' hr'
     exact ⟨a, fun p' hm' => b p' (mem_dropR.mp hm').1⟩
+  case asyncC => exact fun q hq => h.asyncC q (mem_dropR.mp hq).1
 
 end ReqInv
 end GopModel.InFlight
